@@ -149,7 +149,7 @@ PROPS = {
         partial=["text-level pat_twin from the ambiguity walk on general trees (exported as amb_walk / twin_text)"]),
     "C18": rt(300, 5000, ["serve-trace", "tracehelper"],
         "routers with WithTrace 70%: TRACE on live/unknown/raw paths, Allow probes, Use; the Trace helper on requests with HTML metacharacters, with/without body",
-        props=["C18", "C08head", "Consts"],
+        props=["C18", "C08head", "Consts"], extra_runs=[("C13", "C18g", 0.4)],
         level_text="C18_trace_any_path, C18_trace_only_use_middlewares, C18_trace_cannot_be_registered, C18_without_option_trace_is_ordinary, C18_new_tree_trace, C18_trace_helper (status 200, Content-Type message/http in the SENT headers, body = escaped dump).",
         level_note="httputil.DumpRequest and html.EscapeString are parameters of C18_trace_helper."),
     "C19": rt(300, 5000, ["handle-ok"],
